@@ -1,4 +1,9 @@
 """C10 (history property; see DESIGN.md section 5)."""
+import copy
+
+import common
+import gen
+import hist
 from props.hist_base import HistPlugin
 
 
@@ -15,3 +20,79 @@ class Plugin(HistPlugin):
             'a multi-document write touching at least two documents; distinct by canonical JSON.')
     FINDING_BITS = 0
     UNDECIDED_BITS = 1 | 2
+
+    def extra_checks(self, rng, tier, seed):
+        """Every filter-taking entry point on clones of one state: count_documents, find (plain,
+        sort= keyword, chained .sort(), skip/limit-free), update_many.matched_count,
+        delete_many.deleted_count, aggregate $match, distinct('_id'), and whether find_one /
+        update_one / delete_one find a target must all agree (or all raise)."""
+        import mongomock
+        n = 300 if tier == 'quick' else 6000
+        viol, agree, raised = [], 0, 0
+        for i in range(n):
+            gen.DATE_MODE[0] = 'rich' if rng.random() < 0.5 else 'plain'
+            try:
+                docs = [gen.document(rng, 2, id_value=k) for k in range(rng.choice([0, 1, 2, 3, 4]))]
+                base = rng.choice(docs) if docs else {}
+                f = gen.filter_(rng, base, depth=1, malformed=rng.random() < 0.05)
+                # often: an equality on a stored datetime, written as another representation
+                # of the same millisecond
+                import datetime as _dt
+                dated = [(k, v) for d in docs for k, v in d.items() if isinstance(v, _dt.datetime)]
+                if dated and rng.random() < 0.6:
+                    k, v = rng.choice(dated)
+                    f = {k: gen.same_instant(rng, v)}
+                    if rng.random() < 0.3:
+                        f = {k: {'$in': [gen.same_instant(rng, v), 5]}}
+            finally:
+                gen.DATE_MODE[0] = 'plain'
+
+            def fresh():
+                c = mongomock.MongoClient().db.c
+                if docs:
+                    c.insert_many(copy.deepcopy(docs))
+                return c
+
+            def attempt(fn):
+                try:
+                    return ('ok', fn())
+                except Exception as e:  # noqa
+                    return ('raise', type(e).__name__)
+            probes = {
+                'count_documents': lambda: fresh().count_documents(copy.deepcopy(f)),
+                'find': lambda: len(list(fresh().find(copy.deepcopy(f)))),
+                'find_sort_kw': lambda: len(list(fresh().find(copy.deepcopy(f), sort=[('_id', 1)]))),
+                'find_chained_sort': lambda: len(list(fresh().find(copy.deepcopy(f)).sort('_id', 1))),
+                'update_many': lambda: fresh().update_many(copy.deepcopy(f), {'$set': {'zz9': 1}}).matched_count,
+                'delete_many': lambda: fresh().delete_many(copy.deepcopy(f)).deleted_count,
+                'aggregate_match': lambda: len(list(fresh().aggregate([{'$match': copy.deepcopy(f)}]))),
+                'distinct_id': lambda: len(fresh().distinct('_id', copy.deepcopy(f))),
+            }
+            res = {k: attempt(v) for k, v in probes.items()}
+            one = {
+                'find_one': attempt(lambda: fresh().find_one(copy.deepcopy(f)) is not None),
+                'update_one': attempt(lambda: fresh().update_one(copy.deepcopy(f), {'$set': {'zz9': 1}}).matched_count > 0),
+                'delete_one': attempt(lambda: fresh().delete_one(copy.deepcopy(f)).deleted_count > 0),
+            }
+            kinds = {v[0] for v in res.values()} | {v[0] for v in one.values()}
+            if 'raise' in kinds:
+                # a filter the matcher rejects on some document: the entry points evaluate it
+                # lazily or eagerly and need not agree on WHEN it raises
+                raised += 1
+                continue
+            vals = {v[1] for v in res.values() if v[0] == 'ok'}
+            ok = kinds == {'ok'} and len(vals) == 1 and \
+                {v[1] for v in one.values()} == {next(iter(vals)) > 0}
+            # known: an empty collection validates the filter in find/count but $match does not
+            if not ok and not docs and res['aggregate_match'] == ('ok', 0) and \
+                    all(v[0] == 'raise' for k, v in res.items() if k != 'aggregate_match'):
+                continue
+            if ok:
+                agree += 1
+            else:
+                viol.append({'case': {'docs': common.to_jsonable(docs), 'filter': common.to_jsonable(f)},
+                             'impl': {k: list(v) for k, v in dict(res, **one).items()},
+                             'failing_clause': 'the filter-taking entry points disagree on one state and filter'})
+                if len(viol) >= 3:
+                    break
+        return viol, {'entry_point_probes': n, 'entry_points_agree': agree, 'some_entry_point_raises': raised}
